@@ -366,3 +366,6 @@ func gateReport() {
 
 // HashSum is only used by library models (never natively).
 func HashSum(kind string, data []byte) []byte { return nil }
+
+// Reach marks an outcome as reached (the engine collects the set over all schedules).
+func Reach(label string) { fmt.Printf("VRT-REACH %s\n", label) }
